@@ -100,7 +100,7 @@ def check(ctx):
     s_ = ctx.fn("sample_non_uniform:sample_non_uniform")
     F = Facts(s_)
     fact(ctx, R, s_, "compute call", F.assigns("solutions"), ["compute_solutions(cnf_file, support, count)"], "support and the requested count reach the loop")
-    fact(ctx, R, s_, "wrap", F.returns(), ["[Solution(solution, 1) for solution in compute_solutions(cnf_file, support, count)]"], "every solution is returned")
+    fact(ctx, R, s_, "wrap", F.returns(), ["[Solution(_b0, 1) for _b0 in compute_solutions(cnf_file, support, count)]"], "every solution is returned")
     it = ctx.fn("iterate_sat:IterateSATGen.sample")
     cs = [c for c in calls(it.node) if call_attr(c) == "sample_non_uniform"]
     ctx.require(len(cs) == 1, "IterateSATGen.sample: sample_non_uniform call not found")
@@ -108,8 +108,9 @@ def check(ctx):
     ctx.check(args[0] == "sample_count" and args[3] == "block.variables_per_sample()", R, it, "args %s" % [args[0], args[3]],
               "the requested count and the trial-variable prefix are passed", "IterateSATGen passes count `%s`, support `%s`" % (args[0], args[3]), cs[0])
     F = Facts(it)
-    fact(ctx, R, it, "decode all", F.assigns("result"), ["list(map(lambda s: Gen.decode(block, s.assignment), %s))" % F.assigns("solutions")[0]] if F.assigns("solutions") else [],
-         "every returned assignment is decoded")
+    dec = [r for r in F.returns() if "Gen.decode" in r]
+    ctx.check(len(dec) == 1 and dec[0].startswith("SamplingResult([Gen.decode(block, _b0.assignment) for _b0 in sample_non_uniform(sample_count, "), R, it, "decode all",
+              "every returned assignment is decoded", "IterateSATGen returns %s" % F.returns())
     st = ctx.fn("main:synthesize_trials")
     fact(ctx, R, st, "keep", Facts(st).assigns("raw_samples"), [Facts(st).assigns("raw_samples")[0]] if Facts(st).assigns("raw_samples") and
          Facts(st).assigns("raw_samples")[0].endswith(".samples[:samples]") else ["<sampling result>.samples[:samples]"], "the first `samples` results are kept, in order")
